@@ -1,6 +1,7 @@
 CONSTANTS
-  Workers <- MCNoWorkers
-  NTs <- MCNTs
+  Workers <- Workers_timed_d
+  NTs <- NTs_timed_d
+  ThreadNames <- Threads_timed_d
   WyFix = FALSE
   AllowSpurious = FALSE
 INIT Init_timed_d
